@@ -175,7 +175,7 @@ func relayDifferential(rules []string, badReceiver bool) []explore.Finding {
 }
 
 // CheckC11: relay chains forward faithfully, enforce the whitelist, run no app logic.
-func CheckC11(tier string) int {
+func modelsC11(tier string) ([]*PktModel, []int) {
 	props := map[string]bool{"C11": true}
 	ruleSets := map[string][]string{
 		"no-rules":          {},
@@ -221,6 +221,12 @@ func CheckC11(tier string) int {
 		models = append(models, m)
 		depth = append(depth, d)
 	}
+	return models, depth
+}
+
+func CheckC11(tier string) int {
+	models, depth := modelsC11(tier)
+
 	var extra []explore.Finding
 	for _, bad := range []bool{false, true} {
 		extra = append(extra, relayDifferential([]string{"*,*,*"}, bad)...)
@@ -230,4 +236,8 @@ func CheckC11(tier string) int {
 		"routing ghost: literal field-wise match with '*'; the relay chain must re-commit exactly sha256(data) iff allowed, otherwise record an error acknowledgement that the source accepts; its nft/mt/transfer stores stay byte-identical and it emits no application event; the bytes the source processes equal the bytes written where the acknowledgement originated",
 		"differential: token state of A and C after the complete relayed transfer equals that after the same direct transfer (valid and invalid receiver)",
 	}, commonAssumptions...), extra)
+}
+
+func init() {
+	PktRegistry["C11"] = func(tier string) []*PktModel { m, _ := modelsC11(tier); return m }
 }
